@@ -6,6 +6,10 @@ ids = [json.loads(l)["id"] for l in open(os.path.join(HERE, "properties.jsonl"))
 
 # pid -> (category, text, level_note, technique, design_ref)
 CLAIMS = {
+ "C08": ("other",
+         "For each of the 15 arms of the instruction match in _step_inner the effect signature extracted from MIR - read_mem/write_mem calls with the symbolic provenance of their addresses (pc+off, reg[BaseR]+off, mem[pc+off]), register writes and their source, set_cc on exactly the value written (and absent for LEA/ST*/BR/JMP/JSR/TRAP), PC-changing calls, ALU operator, BR condition, RTI loading PC/PSR verbatim from SP/SP+1 and SP+=2 - equals a hand-written ISA table. Fetch order (prefetch flag, poll, fetch, decode, PC+1, execute) and the single instruction counter by dominance; the exception/HALT vector rows under real traps and the virtual short-circuit with PC rewind; set_cc mapping; every PSR accessor/mutator executed path by path in the bit-provenance domain on a symbolic PSR. Data values and device content are not decided.",
+         "Trusted: rustc MIR, mirfacts, rules/lib (simx classification, bits domain), the hand-written effect table. Interrupt entry/RTI pairing is C10, privilege C09, Word arithmetic C15.",
+         "per-arm effect signatures from MIR vs ISA table; dominance; bit-provenance abstract interpretation", "5 C08"),
  "C17": ("other",
          "The binary codec tables are extracted from MIR and compared: for each of the 5 chunk tags the writer's ordered wire fields (integer type, width, byte order) equal the reader's; each variable tail is governed by the immediately preceding length field on both sides and the reader computes K*len in usize for K-byte records; record formats (xFF+u16le / 000000, u16le) agree; each wire field carries the same model field on both sides (SymbolData.addr/src_start/external, map keys and values); every model field is written and the final aggregates are rebuilt from what the arms collect; nl_indices is recomputed. Decides codec agreement, which is necessary for the round trip; equality of the resulting containers is argued from unique keys.",
          "Trusted: rustc MIR, mirfacts, rules/lib/codec.py. Assumes C24 (producers emit strictly increasing line blocks). The empty-symbol-table-without-debug case is listed as the one lossy spot.",
